@@ -68,7 +68,7 @@ def cases(tier, rng):
         for d in list(range(8)) + [8, 71, 79]:
             for j in range(nw // 2):
                 ws = [(0, 0), (M64, M64), (1, 1 << 63), (0, M64), (rng.getrandbits(64), rng.getrandbits(64))]
-                if tier != 'quick': ws += [(rng.getrandbits(64), rng.getrandbits(64)) for _ in range(6)]
+                if tier != 'quick': ws += [(rng.getrandbits(64), rng.getrandbits(64)) for _ in range(20)]
                 for x0, x1 in ws:
                     yield 'threefish.mix %d %d %d %d %d' % (nw, x0, x1, d, j), 'threefish.mix'
                     yield 'threefish.mixinv %d %d %d %d %d' % (nw, x0, x1, d, j), 'threefish.mixinv'
